@@ -279,7 +279,7 @@ impl Lexer {
                 if self.root_expected
                     && matches!(
                         s.to_lowercase().as_str(),
-                        "or" | "and" | "order" | "by" | "asc" | "desc"
+                        "or" | "and" | "not" | "order" | "by" | "asc" | "desc"
                             | "eq" | "ne" | "gt" | "lt" | "ge" | "le" | "gte" | "lte" | "regexp" | "rx"
                             | "like" | "between" | "eeq" | "ene" | "notrx" | "notlike"
                             | "mul" | "div" | "mod" | "plus" | "minus"
@@ -300,7 +300,7 @@ impl Lexer {
                 }
                 "or" => Some(Lexem::Or),
                 "and" => Some(Lexem::And),
-                "not" if self.after_where => Some(Lexem::Not),
+                "not" if self.before_from || self.after_where || self.after_order => Some(Lexem::Not),
                 "order" => {
                     self.after_order = true;
                     Some(Lexem::Order)
